@@ -1,6 +1,7 @@
 (* C19 proofs. Everything is by case analysis on the configuration record / router / grant
    class and by induction on strings and lists; nothing is enumerated by computation. *)
 From OIDC Require Import Lib C19_Discovery C19_spec.
+From OIDC Require Import C19_Conf_proofs.
 
 (* ------------------------------------------------------------------ strings *)
 
@@ -557,7 +558,7 @@ Qed.
 
 Lemma spec_model i : wf i = true -> spec i (model i) = true.
 Proof.
-  destruct i as [r c q probes | r c gs | r c k ch v | r c k pl q | api raw hostless o insecure | asked d | r c k p qm om qc oc sent | r c q k jwt fls]; cbn [wf model spec].
+  destruct i as [r c q probes | r c gs | r c k ch v | r c k pl q | api raw hostless o insecure | asked d | r c k p qm om qc oc sent | r c q k jwt fls | v cf id]; cbn [wf model spec].
   - intro H. apply andb_true_iff in H. destruct H as [Hc Hp].
     unfold wf_config in Hc. apply andb_true_iff in Hc. destruct Hc as [Hc _].
     unfold doc_endpoint, doc_issuer, token_issuer.
@@ -597,6 +598,7 @@ Proof.
     destruct (rel_matches m (if sent then rel else VAbsent) && client_ok c k); reflexivity.
   - intros _. unfold doc_issuer. rewrite String.eqb_refl, map_length, Nat.eqb_refl.
     rewrite spec_flows_model. reflexivity.
+  - intros _. apply conf_spec_model.
 Qed.
 
 (* plain http needs the opt-in however the scheme is spelled (HTTP://, Http://, hTTp:// ...), for every
